@@ -59,6 +59,15 @@ def check_extrema(emd, x, mode, pad, par, lpo, mpo, rec):
     if locs.shape != mags.shape or locs.ndim != 1:
         raise Violation('C05/get_padded_extrema/shape/' + tag, '')
     if locs.shape != rl.shape:
+        # the number of padding passes is decided by `last location >= N` / `first location < 0`; with refined
+        # (fractional) locations that comparison can sit on a rounding knife-edge - then either count is right
+        edge = min(abs(v - b) for b in (0.0, float(N)) for v in (rl.min(), rl.max(), locs.min(), locs.max()))
+        short, long_ = (locs, rl) if locs.size < rl.size else (rl, locs)
+        off = (long_.size - short.size) // 2
+        if par and edge <= 1e-9 * N and (long_.size - short.size) % 2 == 0 and \
+                np.allclose(long_[off:long_.size - off], short, rtol=0, atol=1e-9):
+            rec.cls('padding-pass-count-on-a-rounding-knife-edge')
+            return -1
         raise Violation('C05/get_padded_extrema/length/' + tag, 'got %d expected %d on %r' % (locs.size, rl.size, x.tolist()[:20]))
     npad = (locs.size - iloc.size) // 2
     mid_l, mid_m = locs[npad:locs.size - npad], mags[npad:mags.size - npad]
@@ -121,7 +130,11 @@ def check_envelope(emd, x, which, method, pad, par, lpo, mpo, rec):
     scale = 1e-9 * (1 + np.abs(x).max())
     if pad == 0:
         return 1
-    if not np.allclose(env, ref_env, rtol=1e-9, atol=scale):
+    knife = par and np.asarray(locs).size != rl.size and \
+        min(abs(v - b) for b in (0.0, float(N)) for v in (rl.min(), rl.max(), np.min(locs), np.max(locs))) <= 1e-9 * N
+    if knife:
+        rec.cls('padding-pass-count-on-a-rounding-knife-edge')
+    if not knife and not np.allclose(env, ref_env, rtol=1e-9, atol=scale):
         i = int(np.argmax(np.abs(env - ref_env)))
         raise Violation('C05/interp_envelope/not-interpolant-at-sample-times/' + tag,
                         'sample %d: got %r expected %r (max dev %.3g) on %r' % (i, env[i], ref_env[i], np.abs(env - ref_env).max(), x.tolist()[:20]))
@@ -143,7 +156,7 @@ def oracle_exhaustive(case, rec):
     for pad in range(6):
         for par in (False, True):
             for mode in MODES_X:
-                nt += check_extrema(emd, x, mode, pad, par, None, None, rec)
+                nt += max(check_extrema(emd, x, mode, pad, par, None, None, rec), 0)
     for pad in range(1, 6):
         for par in (False, True):
             for which in MODES_E:
@@ -167,7 +180,8 @@ LOC_OPTS = [None, {'mode': 'reflect', 'reflect_type': 'odd'}]
 
 @st.composite
 def random_case(draw):
-    sig = draw(gens.any_signal(3, 300))
+    sig = draw(st.one_of(gens.any_signal(3, 300), gens.any_signal(3, 300),
+                         gens.family_signal(12, 300, families=('burst',))))
     return {'sig': sig, 'pad': draw(st.integers(0, 5)), 'par': draw(st.booleans()),
             'mode': draw(st.sampled_from(MODES_X)), 'which': draw(st.sampled_from(sorted(MODES_E))),
             'method': draw(st.sampled_from(METHODS)), 'mpo': draw(st.sampled_from(MAG_OPTS)),
@@ -179,7 +193,7 @@ def oracle_random(case, rec):
     x = gens.sig_of(case['sig'])
     if not np.all(np.isfinite(x)):
         raise Discard('non-finite')
-    nt = check_extrema(emd, x, case['mode'], case['pad'], case['par'], case['lpo'], case['mpo'], rec)
+    nt = max(check_extrema(emd, x, case['mode'], case['pad'], case['par'], case['lpo'], case['mpo'], rec), 0)
     nt += check_envelope(emd, x, case['which'], case['method'], max(case['pad'], 1), case['par'], case['lpo'], case['mpo'], rec)
     if case['pad'] == 0:
         check_envelope(emd, x, case['which'], case['method'], 0, case['par'], case['lpo'], case['mpo'], rec)
